@@ -19,7 +19,8 @@ CHECK = dict(
     rule=("ELF files produced at check time: ~45 toolchain variants (compiler, target, link mode, "
           "post-processing by strip/objcopy) x randomly generated C sources and flags; every file is "
           "parsed and re-serialised, then 1-3 edit sessions (1-3 same-size edits each of PROGBITS-like "
-          "section contents by content assignment, in-place patch or virt.set) are serialised, "
+          "section contents by content assignment, in-place patch or virt.set; half of the sessions also "
+          "serialise the object before the first edit and between edits) are serialised, "
           "re-parsed and compared; a variant that fails to build is counted and skipped; distinct = "
           "distinct file contents (sha1); non-trivial = every accepted file"),
     assumptions=["vf/models/c43_elfread.py (struct-based reader) is the definition of the sections, "
